@@ -167,7 +167,12 @@ impl MainState {
                 && !pwd_ok(*self, old(conn_state).user_state.name->0, old(conn_state).user_state.password) ==>
                 final(sig).quit == 1 && final(conn_state).stream.log() == old(conn_state).stream.log().push(
                     fed(self.config.name@, Reply::ErrPasswdMismatch464 { client: str_of(client_name_spec(old(conn_state).user_state)) })),
-            state_wf(*final(state)), // @prop C04
+            sym(*final(state)), // @prop C04
+            chans_wf(*final(state)), // @prop C04,C08
+            no_empty_chan(*final(state)), // @prop C16
+            wallops_wf(*final(state)), // @prop C11,C06
+            counters_wf(*final(state)), // @prop C19
+            senders_distinct(*final(state)), // @prop C02,C01
 //@open
         broadcast use group_hash_axioms, bridge;
 //@end
@@ -192,7 +197,12 @@ impl MainState {
                 &&& final(state).nick_histories@.contains_key(nk)
                 &&& final(state).nick_histories@[nk]@.last() == old(state).users@[nk].history_entry
             }),
-            state_wf(*final(state)), // @prop C04,C06
+            sym(*final(state)), // @prop C04
+            chans_wf(*final(state)), // @prop C04,C08
+            no_empty_chan(*final(state)), // @prop C16
+            wallops_wf(*final(state)), // @prop C11,C06
+            counters_wf(*final(state)), // @prop C19
+            senders_distinct(*final(state)), // @prop C02,C01
 //@open
         broadcast use group_hash_axioms, bridge;
 //@end
@@ -213,7 +223,12 @@ impl MainState {
             !old(conn_state).user_state.authenticated ==> conn_pre(*old(conn_state), *old(state)),
             old(conn_state).user_state.authenticated ==> conn_ok(*old(conn_state), *old(state)),
         ensures
-            state_wf(*final(state)), // @prop C04
+            sym(*final(state)), // @prop C04
+            chans_wf(*final(state)), // @prop C04,C08
+            no_empty_chan(*final(state)), // @prop C16
+            wallops_wf(*final(state)), // @prop C11,C06
+            counters_wf(*final(state)), // @prop C19
+            senders_distinct(*final(state)), // @prop C02,C01
             old(conn_state).user_state.authenticated ==> *final(state) == *old(state) && conn_same_but_stream(*final(conn_state), *old(conn_state)), // @prop C02
             final(conn_state).user_state.authenticated && !old(conn_state).user_state.authenticated ==> // @prop C03,C02
                 reg_accept(*self, ConnState { user_state: ConnUserState { password: Some(sk(pass)), ..old(conn_state).user_state }, ..*old(conn_state) }, *old(state))
@@ -232,7 +247,12 @@ impl MainState {
             !old(conn_state).user_state.authenticated ==> conn_pre(*old(conn_state), *old(state)),
             old(conn_state).user_state.authenticated ==> conn_ok(*old(conn_state), *old(state)),
         ensures
-            state_wf(*final(state)), // @prop C04
+            sym(*final(state)), // @prop C04
+            chans_wf(*final(state)), // @prop C04,C08
+            no_empty_chan(*final(state)), // @prop C16
+            wallops_wf(*final(state)), // @prop C11,C06
+            counters_wf(*final(state)), // @prop C19
+            senders_distinct(*final(state)), // @prop C02,C01
             old(conn_state).user_state.authenticated ==> *final(state) == *old(state) && conn_same_but_stream(*final(conn_state), *old(conn_state)), // @prop C02
             final(conn_state).user_state.authenticated && !old(conn_state).user_state.authenticated ==> conn_ok(*final(conn_state), *final(state)), // @prop C03,C02
             !final(conn_state).user_state.authenticated ==> vs_same(*final(state), *old(state)) && conn_pre(*final(conn_state), *final(state)), // @prop C02
